@@ -116,6 +116,28 @@ pub fn replay(ctx: &Ctx, path: &str) -> i32 {
             }
             other => Some(format!("compile ended in {}", other.describe())),
         }
+    } else if let Some(srcs) = case.get("sources").and_then(|s| s.as_array()) {
+        // a whole batch that did not finish compiling (C03): compile every input alone, five seconds each
+        runner.timeout = std::time::Duration::from_secs(5);
+        let mut problem = None;
+        for (i, s) in srcs.iter().enumerate() {
+            let src = s.as_str().unwrap_or("").to_string();
+            let mut req = Request { op: "compile".into(), snippets: vec![src.clone()], ..Default::default() };
+            match runner.call(&mut req) {
+                Obs::Resp(r) => {
+                    if let Some(proto::Outcome::Panic { msg }) = r.results.get(0).map(|x| &x.outcome) {
+                        problem = Some(format!("input {} of the batch: compiler panicked: {}", i, msg));
+                        break;
+                    }
+                }
+                other => {
+                    println!("input {} of the batch:\n{}", i, src);
+                    problem = Some(format!("input {} of the batch: compile ended in {}", i, other.describe()));
+                    break;
+                }
+            }
+        }
+        problem
     } else if let Some(hist) = case.get("history") {
         let ops: Vec<InternOp> = serde_json::from_value(hist.clone()).unwrap_or_default();
         let mut req = Request { op: "intern".into(), intern_prefix: ops, ..Default::default() };
